@@ -181,3 +181,23 @@ PROPS["C10"] = dict(
     level_note="Trusted: go-multiaddr for the reference /p2p encapsulation; the allocation bound 4*len+3MiB (one 2 MiB field cap + 8192-entry address table + slack).",
     assumptions=["the pubsub sender is exercised in C09's pubsub part, not here"],
 )
+
+PROPS["C19"] = dict(
+    race=False,
+    shards={"quick": 8, "thorough": 16},
+    level="exploration",
+    design_ref="DESIGN.md §4 C19",
+    technique="runtime monitor: write-through-server / read-through-client differential over generated result lists, keys, Accept headers and paths",
+    rule=("a local HTTP server whose handler is the glue a real indexer uses (rwriter.New with WithPreferJson, NewProviderResponseWriter, "
+          "WriteProviderResult..., Close, API errors written with their status) is queried (a) with the real find client (Find and FindBatch) "
+          "for seeded result lists of 0..20 results (nil/empty/binary context ids and metadata, providers with 0..3 addresses) and (b) with "
+          "raw requests over key forms {base58 multihash, hex multihash, CIDv0, CIDv1 in base32/base58/base16, bad keys, bad resource types} x 14 "
+          "Accept header shapes {none, json, ndjson, */*, q-lists, two headers, upper case, unsupported, malformed} x 4 path prefixes: same "
+          "results in order, NDJSON one result per line, empty set => 404 / empty response, bad requests => 4xx API error that decodes with "
+          "its status; apierror Encode/Decode/FromResponse round trips. distinct_nontrivial = distinct (accept kind, key kind, empty?) and list-size tuples."),
+    floors={"quick": {"ndjson_responses": 300, "json_responses": 1000, "empty_sets": 200, "rejected_accept": 300, "rejected_key": 300, "key_hex": 100, "key_cidv0": 100}},
+    level_text=("Exploration: the real writer and the real client talk over a local socket for thousands of generated result sets and request "
+                "shapes; the oracle is equality with what was written plus the status-code contract."),
+    level_note="Trusted: the handler glue in harness/props/c19.go mirrors how an indexer uses the writer (assumption); Go's net/http.",
+    assumptions=["a hex key whose characters all lie in the base58 alphabet may legitimately be read as base58 (either outcome accepted)"],
+)
